@@ -338,7 +338,7 @@ def main(argv):
         "(typed scalar filter nodes of the ast package) + the C02 models (comparators, setPaging, bounded tree)",
         "objectz comparators / setPaging / memSortingScanner are textual copies of the boltz ones and share their model",
         "extraction (ExtrOcamlBasic only) + extraction/c19_driver.ml + drv_common.ml",
-        "Go harness cmd/storageharness/c19.go + c19ext.go + c19long.go + c02.go (generators, filter printer, float literal conversion) and this comparison",
+        "Go harness cmd/storageharness/c19.go + c19ext.go + c19long.go + c19seq.go + c02.go (generators, the respelling of query texts outside their literals, filter printer, float literal conversion) and this comparison",
     ]
     c.assumptions = [
         "object ids are unique; the bolt store holds the same values with the symbol's own field type",
@@ -390,6 +390,8 @@ def main(argv):
     dline, dindex = None, 0
     session = None      # the case lines since the last `S` (new object stores); None: the stores of the whole run
     nsessions = nrespelled = history_dependent = 0
+    dependent = {}
+    probes = 0
     for case, i, m in zip(cases, impl, modl):
         if case.startswith("S"):
             session, nsessions = [], nsessions + 1
@@ -423,14 +425,31 @@ def main(argv):
         side, got, want = v
         key = key_of(q, v, fm["legacy"])
         reported[key] = reported.get(key, 0) + 1
-        if reported[key] > 2:
-            continue
+        over = reported[key] > 2
+        if over:
+            # enough reports of this class - but inside a session one more look (bounded) whether the disagreement
+            # is one that depends on the earlier queries: that deserves its own report with the queries in front
+            if hist is None or probes >= 40 or sum(dependent.values()) >= 2:
+                continue
+            probes += 1
         pre = []
-        if not bad_after(runner, dline, [], q, key):
+        alone = bad_after(runner, dline, [], q, key)
+        if over and alone:
+            continue
+        if not alone:
             # not reproduced by this query alone on new stores: the answer depends on earlier queries on the same
             # ObjectStore (objectz_session_independent); look for them in the session
             history_dependent += 1
             pre = find_history(runner, dline, q, key, hist) if hist else None
+        rkey = key
+        if pre:
+            # the class of the wrong answer (count / page / order) says little here: report the dependence itself
+            rkey = "C19:%s-depends-on-earlier-query" % ("bolt" if side == "bolt" else "objectz")
+            dependent[rkey] = dependent.get(rkey, 0) + 1
+            if dependent[rkey] > 2:
+                continue
+        if over and not pre:
+            continue
         if pre is None:
             d2, q2, pre = dline, q, []
         else:
@@ -460,7 +479,7 @@ def main(argv):
                         k, len(q2["sort"]), {"objectz": "object store", "bolt": "bolt store"}[side],
                         ", ".join("%s %s" % ("id" if c0 == "id" else (["fs", "fi", "fj", "ff", "fb", "ft", "keep", "grp"][int(c0)]), "asc" if a == "a" else "desc")
                                   for c0, _, a in q2["sort"][k:]))
-        c.violation(key, what, dict(case="\n".join(lines2), query_text=text, earlier_queries=texts[:-1],
+        c.violation(rkey, what, dict(case="\n".join(lines2), query_text=text, earlier_queries=texts[:-1],
                                     impl=impl2[-1] if impl2 else i, model=modl2[-1] if modl2 else m,
                                     original_case=dline + "\n" + case, side=side))
 
@@ -472,7 +491,7 @@ def main(argv):
     c.cov["history_dependent_disagreements"] = history_dependent
     c.cov["both_stores_panic"] = both_panic
     c.cov["unmodelled_filters"] = unmodelled
-    c.cov["violation_classes"] = reported
+    c.cov["violation_classes"] = dict(reported, **dependent)
     c.cov["rule"] = ("per ordinary collection (0..12 objects, fields of the five scalar types + id, 0-60% nulls, value pools with ties): "
                      "(1) the full paging grid skip x limit (99 points) for `true` in default order and for a null test under a sort; "
                      "(1a) the skip/limit pairs at the numeric extremes of int64 (skip+limit at and beyond MaxInt64 with a finite limit, "
@@ -494,8 +513,17 @@ def main(argv):
                      "(x1) every column ascending and descending, alone and as second key behind a column with ties, unpaged and read back "
                      "page by page (skip k limit 1 for every k, pages of 3, first/last, skip without limit); (x2) every atom kind x operator x column "
                      "with literals at the extremes, unpaged and sorted by that column with a page; (x3) random composite filters x sorts x pages. "
-                     "The same text goes to ObjectStore.QueryEntities "
-                     "(objects delivered in a shuffled order) and to QueryIds of a bolt store loaded with the same values. "
+                     "(S) SESSIONS on new ObjectStore instances (c19seq.go; case line S = new stores, QV = the text respelled outside its literals: "
+                     "keyword case, doubled separators, tabs / line breaks, margins, no blanks around comparison operators, blanks inside brackets): "
+                     "collections of near-identical strings (one / two / three blanks, tab, line break, leading / trailing blank, none, lower / upper case, "
+                     "quote and backslash with and without a backslash in front, a tab against the characters \\t; fixed families + random ones); "
+                     "(S1) the collection changes under one pair of stores: never populated, 1 object, 23, emptied, 2, emptied, 1, emptied - the same texts each time; "
+                     "(S2) every ordered pair of near-identical literals as a two-query session (operators = != contains in < not-contains icontains >=); "
+                     "(S3) one query in every spelling, then its neighbour, then the first again, in one session; (S4) random sessions of 2..7 queries. "
+                     "The same text goes to ObjectStore.QueryEntities of two object stores - one fed by the harness's iterator "
+                     "(objects delivered in a shuffled order), one fed by objectz.IterateMap over a map that is emptied and re-populated when the "
+                     "collection changes - and to QueryIds of a bolt store loaded with the same values; each answer is compared with the "
+                     "specification for exactly that text (independent of the earlier queries of the session: objectz_session_independent). "
                      "Non-trivial: modelled filter, at least one matching object, and a filter/sort/skip/limit clause; distinct by (collection, query)")
     c.cov["samples"] = samples
     try:
